@@ -44,7 +44,7 @@ MUTANTS = [
     Mut(ANALYSIS, CX, "self-reference guard removed", m_replace_src("if type_info == cur_cls_name:", "if False:")),
     Mut(ANALYSIS, CX, "class-side new-instance record dropped", m_delete_call("add_xref_new_instance", 1)),
     Mut(ANALYSIS, CX, "string xref from the target class", m_replace_src("self.strings[string_value].add_xref_from(cur_cls, cur_meth, off)", "self.strings[string_value].add_xref_from(cur_meth, cur_cls, off)")),
-    Mut(ANALYSIS, CX, "string decoded with the opcode", m_replace_src("get_cm_string(instruction.get_ref_kind())", "get_cm_string(op_value)")),
+    Mut(ANALYSIS, CX, "string decoded from the type pool", m_replace_src("get_cm_string(instruction.get_ref_kind())", "get_cm_type(instruction.get_ref_kind())")),
     Mut(ANALYSIS, CX, "const-class offset is the type index", m_set_arg("add_xref_const_class", 1, "idx_type")),
     Mut(ANALYSIS, CX, "strings skipped for own-named class", m_replace_src("if string_value not in self.strings:", "if string_value == cur_cls_name:\n    continue\nif string_value not in self.strings:")),
     Mut(ANALYSIS, CX, "class xref_from without xref_to", m_delete_call("add_xref_to", 0)),
